@@ -4,12 +4,16 @@ from props import cg
 EXPLANATION = ('On type-checked MIR of logos-codegen: at all three leaf construction sites the priority is definition.priority.unwrap_or(default) for the same definition '
                '(explicit overrides default); the token default is 2 x the byte length of the literal value, the regex/skip default is Pattern::priority() of the pattern compiled at that site; '
                'Pattern::complexity is a match on HirKind whose per-variant arms are summarised and compared with the documented table (Empty/Look 0, Class 2, Literal 2 x chars|bytes, '
-               'Repetition min x rec, Capture rec, Concat sum, Alternation min). Decides the rule table and its wiring for every pattern; the arithmetic corollary about literal/regex pairs is not decided.')
+               'Repetition min x rec, Capture rec, Concat sum, Alternation min). Definition::named_attr stores exactly the Ok value of parse::<usize>() as the explicit priority (M-C09d); get_state_type picks the maximum priority and reports ties (M-C08b). Decides the rule table and its wiring for every pattern; the arithmetic corollary about literal/regex pairs is not decided.')
 
 
 def run(ctx, rep):
     crate = ctx.mir('ws-default')['logos_codegen']
     cg.rule_sites(rep, crate, want=('C09',))
     cg.rule_complexity(rep, crate)
+    cg.rule_priority_parse(rep, crate)
+    # "it wins or the derive reports an ambiguity": the winner of a state is the leaf with the maximum priority, ties are errors
+    from props import c08
+    c08.rule_state_type(rep, crate)
     cg.cg_controls(rep, ctx, [('M-C09c', cg.rule_complexity)])
     rep.trusted += ['rustc nightly MIR', 'engines/mirfacts', 'regex-syntax Hir construction (what counts as a literal / class)']
